@@ -256,6 +256,8 @@ package flows
 //@   ensures[no-previous-certificate] lastSentCertificate == nil ==> result == nil
 //@   ensures[contiguous-is-accepted] (lastSentCertificate != nil && lastSentCertificate.Status != agglayertypes.InError && newFromBlock == lastSentCertificate.ToBlock + 1) ==> result == nil
 //@   ensures[gap-with-events-refused] (result == nil && lastSentCertificate != nil && lastSentCertificate.Status != agglayertypes.InError && lastSentCertificate.ToBlock + 1 < newFromBlock) ==> nBridgesOf(lastSentCertificate.ToBlock + 1, newFromBlock - 1) == 0 && nClaimsOf(lastSentCertificate.ToBlock + 1, newFromBlock - 1) == 0 && !f.cfg.RequireNoFEPBlockGap
+// (after a failed certificate the settled range ends just below that certificate's first block)
+//@   ensures[gap-with-events-refused-after-a-failed-certificate] (result == nil && lastSentCertificate != nil && lastSentCertificate.Status == agglayertypes.InError && lastSentCertificate.FromBlock > 0 && lastSentCertificate.FromBlock < newFromBlock) ==> nBridgesOf(lastSentCertificate.FromBlock, newFromBlock - 1) == 0 && nClaimsOf(lastSentCertificate.FromBlock, newFromBlock - 1) == 0 && !f.cfg.RequireNoFEPBlockGap
 
 // the checks every flow applies to the parameters before building (C02, C09)
 //@ func (f *baseFlow) VerifyBuildParams (f, ctx, fullCert)
